@@ -24,7 +24,8 @@ RULE = ("all subsets of the clause-setting calls per statement kind (set operati
         "in which every call takes one of its alternative argument forms (names given as strings, strings that equal a select "
         "alias, aliased terms, USING/LEFT/subquery joins, foreign WHERE, RETURNING forms ...), all orders, plus well-formedness "
         "and incomplete-builder checks on the result. non-trivial = at "
-        "least two calls; distinct = (kind, dialect, call set)")
+        "least two calls; distinct = (kind, dialect, call set)"
+        " also: second render identical and derived builder well-formed, refused call orders are violations, split column lists, recursive CTE after a plain one, select-list accumulation around stars, names of several un-named derived sources, table-shortcut statements on SQLite. (DESIGN.md 6a)")
 ASSUMPTIONS = [
     "clause-order tables per dialect and statement kind are the reference (pvm/checks/c13.py ORDER); acceptance by an engine "
     "parser is available for SQLite only",
